@@ -422,6 +422,8 @@ func cmdCheck(args []string) {
 			"reach_witnesses":        sortedKeys(sh.reach),
 			"path_witnesses_replayed_natively": witnessOK,
 			"counterexamples_replayed_natively": len(sh.violations),
+			"paths_cut_outside_claim": sh.cuts,
+			"alloc_amplification_sites": sh.allocs,
 			"inconclusive":           inconclusive,
 			"encoder_mismatches":     mismatches,
 			"known_findings_hit":     knownHits,
